@@ -21,7 +21,94 @@ use std::path::Path;
 
 pub struct C13 {
     tm: TypeMap,
+    /// the type map with the overload classes of harness/metatypes/verif_overloads.json (VOverBase, VOver) in addition
+    tm_over: TypeMap,
     rt: Runtime,
+}
+
+// ------------------------------------------------------------------------------------------------ overload sets
+//
+// `on<Signal>` on a name with several overloads.  SPECIFICATION (what the documentation promises — "default arguments
+// are supported, genuinely overloaded signals cannot be bound" — made exact): the overload set is the set of methods of
+// that name declared in the most derived class that declares the name (C++ name hiding: `&Class::name`); ordered by
+// increasing argument count, every overload must be its predecessor plus TRAILING arguments, of the same kind and return
+// type (a default-argument family): then the handler is bound to the overload with the most arguments, provided it is a
+// signal; every other set is ambiguous and must be refused with "cannot bind to overloaded signal".
+
+const OVERLOADS_JSON: &str = include_str!("../../metatypes/verif_overloads.json");
+
+#[derive(Clone, Debug, PartialEq)]
+pub struct Meth {
+    kind: &'static str,
+    ret: String,
+    args: Vec<String>,
+}
+
+/// (class, base class, [(method name, Meth)]) of the overload file, read from the JSON text itself
+fn overload_classes() -> Vec<(String, Option<String>, Vec<(String, Meth)>)> {
+    let data: serde_json::Value = serde_json::from_str(OVERLOADS_JSON).unwrap();
+    let mut out = vec![];
+    for c in data[0]["classes"].as_array().unwrap() {
+        let mut ms = vec![];
+        for (key, kind) in [("signals", "signal"), ("slots", "slot"), ("methods", "method")] {
+            for m in c[key].as_array().map(|v| v.as_slice()).unwrap_or(&[]) {
+                let args = m["arguments"].as_array().map(|a| a.iter().map(|x| x["type"].as_str().unwrap().to_owned()).collect()).unwrap_or_default();
+                ms.push((m["name"].as_str().unwrap().to_owned(), Meth { kind, ret: m["returnType"].as_str().unwrap().to_owned(), args }));
+            }
+        }
+        let base = c["superClasses"][0]["name"].as_str().map(|s| s.to_owned());
+        out.push((c["className"].as_str().unwrap().to_owned(), base, ms));
+    }
+    out
+}
+
+/// the overload set of `name` seen from `cls`: the most derived class declaring the name decides
+fn overload_set(cls: &str, name: &str) -> Vec<Meth> {
+    let classes = overload_classes();
+    let mut cur = Some(cls.to_owned());
+    while let Some(c) = cur {
+        match classes.iter().find(|(n, _, _)| *n == c) {
+            Some((_, base, ms)) => {
+                let found: Vec<Meth> = ms.iter().filter(|(n, _)| n == name).map(|(_, m)| m.clone()).collect();
+                if !found.is_empty() {
+                    return found;
+                }
+                cur = base.clone();
+            }
+            None => return vec![],
+        }
+    }
+    vec![]
+}
+
+/// the specification: `Ok(method)` = the default-argument family's longest member, `Err(())` = ambiguous
+fn spec_resolve(ms: &[Meth]) -> Result<Meth, ()> {
+    let mut sorted: Vec<&Meth> = ms.iter().collect();
+    sorted.sort_by_key(|m| m.args.len());
+    for w in sorted.windows(2) {
+        let (a, b) = (w[0], w[1]);
+        if !(a.kind == b.kind && a.ret == b.ret && b.args.len() >= a.args.len() && b.args[..a.args.len()] == a.args[..]) {
+            return Err(());
+        }
+    }
+    Ok((*sorted.last().unwrap()).clone())
+}
+
+fn expectation(ms: &[Meth]) -> Sexp {
+    if ms.is_empty() {
+        return node("expect", vec![atom("unknown")]);
+    }
+    match spec_resolve(ms) {
+        Err(()) => node("expect", vec![atom("ambiguous")]),
+        Ok(m) if m.kind == "signal" => node("expect", std::iter::once(atom("accepted")).chain(m.args.iter().map(|a| st(a.clone()))).collect()),
+        Ok(_) => node("expect", vec![atom("not-signal")]),
+    }
+}
+
+/// C++ spelling of an argument type inside `QOverload<…>` → metatype name
+fn arg_name(cxx: &str) -> String {
+    let t = cxx.trim();
+    t.strip_prefix("const ").and_then(|x| x.strip_suffix('&')).map(|x| x.trim().to_owned()).unwrap_or_else(|| t.to_owned())
 }
 
 pub const SIGNALS: &[(&str, &[Ty], &[&str])] = &[
@@ -86,7 +173,26 @@ fn func(params: &[(&str, &[&str])], body: Vec<Stmt>) -> Program {
 
 /// targeted handlers: (signal, program, label)
 pub fn targeted(rng: &mut Rng) -> (&'static str, Program, &'static str) {
-    match rng.below(9) {
+    match rng.below(10) {
+        9 => {
+            // a folded comparison of string constants (UTF-16 code unit order) and a run-time one decide the effects
+            let pool = crate::streams::c01::ORDER_STRINGS;
+            let ops = ["lt", "le", "gt", "ge", "eq", "ne"];
+            let cmp = |rng: &mut Rng, l: Expr, r: Expr| Expr::Binary(*rng.pick(&ops), Box::new(l), Box::new(r));
+            let c = { let (l, r) = (Expr::Str(rng.pick(pool).to_string()), Expr::Str(rng.pick(pool).to_string())); cmp(rng, l, r) };
+            let rt = { let r = Expr::Str(rng.pick(pool).to_string()); cmp(rng, id("s"), r) };
+            (
+                "fired2",
+                func(
+                    &[("n", &["int"]), ("s", &["QString"])],
+                    vec![
+                        Stmt::If(c, Box::new(Stmt::Block(vec![assign(mem(id("a"), "s"), Expr::Str("then".into()))])), Some(Box::new(Stmt::Block(vec![assign(mem(id("a"), "s"), Expr::Str("else".into()))])))),
+                        log(vec![rt, id("n")]),
+                    ],
+                ),
+                "const-string-compare",
+            )
+        }
         0 => {
             // fewer parameters than the signal carries; the parameter is the FIRST argument
             ("fired2", func(&[("n", &["int"])], vec![assign(mem(id("b"), "i"), id("n")), log(vec![id("n")])]), "fewer-params")
@@ -216,7 +322,42 @@ enum Status {
 
 impl C13 {
     pub fn new() -> Self {
-        C13 { tm: env::load_verif_type_map(), rt: Runtime::new() }
+        C13 {
+            tm: env::load_verif_type_map(),
+            tm_over: env::load_type_map(&[include_str!("../../metatypes/verif.json"), OVERLOADS_JSON]),
+            rt: Runtime::new(),
+        }
+    }
+
+    /// what the real pipeline does with `<cls> { id: a; on<Name>: console.log("x") }`:
+    /// `(accepted "T"…)` (argument types of the connected overload), `(ambiguous)`, `(not-signal)`, `(unknown)`
+    fn observe_overload(&self, cls: &str, name: &str) -> Sexp {
+        let src = format!("import qmluic.QtWidgets\nQWidget {{\n    {cls} {{\n        id: a\n        {name}: console.log(\"x\")\n    }}\n}}\n");
+        let t = env::translate(&self.tm_over, &src, "MyType", Mode::Generate);
+        if t.syntax_errors > 0 {
+            return node("syntax-error", vec![st(src)]);
+        }
+        let errors: Vec<String> = t.diags.iter().filter(|d| d.is_error).map(|d| d.message.clone()).collect();
+        if !errors.is_empty() || !t.accepted() {
+            return if errors.iter().any(|m| m == "cannot bind to overloaded signal") {
+                node("ambiguous", vec![])
+            } else if errors.iter().any(|m| m == "not a signal") {
+                node("not-signal", vec![])
+            } else if errors.iter().any(|m| m.starts_with("unknown signal of class")) {
+                node("unknown", vec![])
+            } else {
+                node("rejected", errors.iter().map(|m| st(m.clone())).collect())
+            };
+        }
+        let header = t.header.unwrap_or_default();
+        let conns: Vec<&str> = header.match_indices("QObject::connect(").map(|(i, _)| &header[i..]).collect();
+        if conns.len() != 1 {
+            return node("connections", vec![crate::sexp::num(conns.len() as i64)]);
+        }
+        match conns[0].find("QOverload<").and_then(|i| conns[0][i + 10..].find(">::of(&").map(|j| &conns[0][i + 10..i + 10 + j])) {
+            Some(targs) => node("accepted", targs.split(',').filter(|x| !x.trim().is_empty()).map(|x| st(arg_name(x))).collect()),
+            None => node("unreadable-connection", vec![st(conns[0].lines().next().unwrap_or("").to_owned())]),
+        }
     }
 
     fn translate(&self, type_name: &str, binding: &str, signal: &str, program: &Program) -> Status {
@@ -434,6 +575,46 @@ impl Stream for C13 {
         for (name, p) in acceptance_cases() {
             cases.push(Case { kind: "model", labels: vec!["acceptance".into()], request: node("c13-body", vec![node("name", vec![st(name)]), p.sexp()]) });
         }
+        // overload sets: every name of the overload classes (default-argument chains of 1–3, forks in a leading / trailing
+        // argument type, in arity only, signal vs slot / method of the same name, names declared in base and derived class),
+        // judged against the specification (oracle) and compared with the model's `uniquify_methods` (model)
+        let ocs = overload_classes();
+        for (cls, base, _) in &ocs {
+            let cls = cls.clone();
+            // every name declared in the class or in its base class
+            let mut names: Vec<String> = vec![];
+            for (n, _, ms) in &ocs {
+                if *n == cls || Some(n) == base.as_ref() {
+                    for (m, _) in ms {
+                        if !names.contains(m) {
+                            names.push(m.clone());
+                        }
+                    }
+                }
+            }
+            names.push("noSuch".into());
+            for n in names {
+                let set = overload_set(&cls, &n);
+                let on = format!("on{}", cap(&n));
+                cases.push(Case { kind: "oracle", labels: vec!["overload-set".into(), format!("overload:{}", expectation(&set).as_node().unwrap().1[0].as_atom().unwrap())], request: node("c13-overload", vec![node("cls", vec![st(cls.clone())]), node("name", vec![st(on.clone())]), expectation(&set)]) });
+                if !set.is_empty() {
+                    let ms: Vec<Sexp> = set.iter().map(|m| node("m", std::iter::once(atom(m.kind)).chain(std::iter::once(st(m.ret.clone()))).chain(m.args.iter().map(|a| st(a.clone()))).collect())).collect();
+                    cases.push(Case { kind: "model", labels: vec!["overload-set".into(), "model".into()], request: node("c13-body", vec![atom("overload"), node("cls", vec![st(cls.clone())]), node("name", vec![st(on)]), node("methods", ms)]) });
+                }
+            }
+        }
+        // the real Qt classes with genuinely overloaded signals (Qt 5 metatypes) and default-argument families
+        for (cls, name, exp) in [
+            ("QSpinBox", "onValueChanged", vec![atom("ambiguous")]),
+            ("QComboBox", "onActivated", vec![atom("ambiguous")]),
+            ("QComboBox", "onHighlighted", vec![atom("ambiguous")]),
+            ("QComboBox", "onCurrentIndexChanged", vec![atom("ambiguous")]),
+            ("QPushButton", "onClicked", vec![atom("accepted"), st("bool")]),
+            ("QPushButton", "onToggled", vec![atom("accepted"), st("bool")]),
+            ("QLineEdit", "onTextChanged", vec![atom("accepted"), st("QString")]),
+        ] {
+            cases.push(Case { kind: "oracle", labels: vec!["overload-set".into(), "qt-class".into()], request: node("c13-overload", vec![node("cls", vec![st(cls)]), node("name", vec![st(name)]), node("expect", exp)]) });
+        }
         // declared parameter types that differ from the signal's argument type — also those a static cast would convert —
         // must be refused ("incompatible callback arguments"); and raw spellings of handlers that must be connected once
         {
@@ -527,6 +708,23 @@ impl Stream for C13 {
                     }
                 }
                 self.run_batch(&states, &sigargs, &handlers)
+            }
+            "c13-overload" => {
+                let cls = args[0].as_node().unwrap().1[0].as_str().unwrap().to_owned();
+                let name = args[1].as_node().unwrap().1[0].as_str().unwrap().to_owned();
+                let (_, exp) = args[2].as_node().unwrap();
+                let want = node(exp[0].as_atom().unwrap(), exp[1..].to_vec());
+                let got = self.observe_overload(&cls, &name);
+                if got == want {
+                    node("ok", vec![got])
+                } else {
+                    node("fail", vec![st(format!("{cls}.{name}: the specification says {}, the translation {}", want.render(), got.render()))])
+                }
+            }
+            "c13-body" if args.first().and_then(|a| a.as_atom()) == Some("overload") => {
+                let cls = args[1].as_node().unwrap().1[0].as_str().unwrap().to_owned();
+                let name = args[2].as_node().unwrap().1[0].as_str().unwrap().to_owned();
+                self.observe_overload(&cls, &name)
             }
             "c13-raw" => {
                 let expect = args[0].as_atom().unwrap();
